@@ -56,6 +56,26 @@ func init() {
 		return freshErr(fr.p, "decode.err")
 	})
 
+	reg("(*encoding/json.Decoder).Token", "returns the next token or an error (io.EOF at the end of the input)", func(fr *Frame, in ssa.Instruction, st *State, args []Value, rt types.Type) Value {
+		return TupleV{IfaceV{Ref: B.Fresh("token", SRef)}, freshErr(fr.p, "token.err")}
+	})
+	pure("(*encoding/json.Decoder).Token")
+	reg("(*encoding/json.Decoder).More", "reports whether another element follows", func(fr *Frame, in ssa.Instruction, st *State, args []Value, rt types.Type) Value {
+		return Scalar{B.Fresh("more", SBool)}
+	})
+	pure("(*encoding/json.Decoder).More")
+	reg("net/http.MaxBytesReader", "returns a non-nil reader limited to n bytes of r (ghost function http.limit(reader) == n)", func(fr *Frame, in ssa.Instruction, st *State, args []Value, rt types.Type) Value {
+		r := B.Fresh("limited", SRef)
+		B.DeclareFun("http.limit", []string{SRef}, SBV(64))
+		B.DeclareFun("http.limited", []string{SRef}, SRef)
+		fr.p.assume(True(), Neq(r, BVInt(0, 64)))
+		fr.p.assume(True(), Eq(B.App("http.limit", SBV(64), r), sTerm(args[2])))
+		if iv, ok := args[1].(IfaceV); ok {
+			fr.p.assume(True(), Eq(B.App("http.limited", SRef, r), iv.Ref))
+		}
+		return IfaceV{Ref: r}
+	})
+	pure("net/http.MaxBytesReader")
 	reg("(*net/url.URL).Query", "returns the parsed query values (arbitrary); the URL is not changed", func(fr *Frame, in ssa.Instruction, st *State, args []Value, rt types.Type) Value {
 		return fr.freshResult(st, rt, "query")
 	})
